@@ -136,6 +136,7 @@ type World struct {
 	T0      time.Time // reference instant for TOTP codes of this world
 	smsTick map[string]int    // browser -> abstract tick at which sms_last was written
 	smsSeen map[string]string // browser -> sms_last value as last written by the harness/library
+	junkN   int
 	pwCache map[string]int
 	rcCache map[string][2]int // bcrypt hash -> (gen, idx)
 	Secrets []Secret          // every plaintext secret known to the harness (C17)
